@@ -1057,3 +1057,113 @@ def inline_new_helpers(tree, modshort):
     if n:
         ast.fix_missing_locations(tree)
     return n
+
+
+# ------------------------------------------------------------------ N3
+def desugar_first_match(tree):
+    """N3: `next((E for T in IT if C), D)` is the first-match loop
+
+        for T in IT:                      for T in IT:
+            if C: return E          or        if C: X = E; break
+        return D                          else: X = D
+
+    written as an expression.  The path-following rules (and the flow
+    interpreter, which has no generator semantics) see the loop.  Only
+    `return next(...)` and `X = next(...)` statements with a one-generator
+    generator expression and an explicit default are rewritten."""
+    n_done = 0
+
+    def match(call):
+        if isinstance(call, ast.Call) and isinstance(call.func, ast.Name) \
+                and call.func.id == 'next' and len(call.args) == 2 and \
+                not call.keywords and isinstance(
+                    call.args[0], ast.GeneratorExp) and \
+                len(call.args[0].generators) == 1 and \
+                not call.args[0].generators[0].is_async:
+            return call.args[0], call.args[1]
+        return None
+
+    def rewrite(body, fn_names):
+        nonlocal n_done
+        out = []
+        for st in body:
+            for fld in ('body', 'orelse', 'finalbody'):
+                sub = getattr(st, fld, None)
+                if isinstance(sub, list) and sub and not isinstance(
+                        st, (ast.FunctionDef, ast.AsyncFunctionDef,
+                             ast.ClassDef)):
+                    setattr(st, fld, rewrite(sub, fn_names))
+            if isinstance(st, ast.Try):
+                for h in st.handlers:
+                    h.body = rewrite(h.body, fn_names)
+            m = None
+            if isinstance(st, ast.Return) and st.value is not None:
+                m = match(st.value)
+            elif isinstance(st, ast.Assign) and len(st.targets) == 1 and \
+                    isinstance(st.targets[0], ast.Name):
+                m = match(st.value)
+            if m is None:
+                out.append(st)
+                continue
+            gen, default = m
+            g = gen.generators[0]
+            tnames = {x.id for x in ast.walk(g.target)
+                      if isinstance(x, ast.Name)}
+            if tnames & fn_names:
+                out.append(st)       # would capture a local of the function
+                continue
+            test = None
+            if g.ifs:
+                test = g.ifs[0] if len(g.ifs) == 1 else ast.BoolOp(
+                    op=ast.And(), values=list(g.ifs))
+            if isinstance(st, ast.Return):
+                hit = [ast.Return(value=gen.elt)]
+                inner = [ast.If(test=test, body=hit, orelse=[])] \
+                    if test is not None else hit
+                new = [ast.For(target=g.target, iter=g.iter, body=inner,
+                               orelse=[], type_comment=None),
+                       ast.Return(value=default)]
+            else:
+                tgt = st.targets[0]
+                hit = [ast.Assign(targets=[ast.Name(id=tgt.id,
+                                                    ctx=ast.Store())],
+                                  value=gen.elt, type_comment=None),
+                       ast.Break()]
+                inner = [ast.If(test=test, body=hit, orelse=[])] \
+                    if test is not None else hit
+                new = [ast.For(
+                    target=g.target, iter=g.iter, body=inner,
+                    orelse=[ast.Assign(targets=[ast.Name(
+                        id=tgt.id, ctx=ast.Store())], value=default,
+                        type_comment=None)], type_comment=None)]
+            for x in ast.walk(g.target):
+                if isinstance(x, ast.Name):
+                    x.ctx = ast.Store()
+            for nn in new:
+                ast.copy_location(nn, st)
+                ast.fix_missing_locations(nn)
+            out += new
+            n_done += 1
+        return out
+
+    for fn in ast.walk(tree):
+        if isinstance(fn, (ast.FunctionDef, ast.AsyncFunctionDef)):
+            names = set()
+            for x in ast.walk(fn):
+                if isinstance(x, ast.GeneratorExp):
+                    continue
+            # names bound or read in the function outside generator
+            # expressions
+            def collect(n, acc):
+                if isinstance(n, (ast.GeneratorExp, ast.ListComp,
+                                  ast.SetComp, ast.DictComp)):
+                    return
+                if isinstance(n, ast.Name):
+                    acc.add(n.id)
+                if isinstance(n, ast.arg):
+                    acc.add(n.arg)
+                for c in ast.iter_child_nodes(n):
+                    collect(c, acc)
+            collect(fn, names)
+            fn.body = rewrite(fn.body, names)
+    return n_done
